@@ -140,3 +140,18 @@ Proof.
   - exact (ExtraRefine2.gen_f1_perfect cov W alpha out t p eps).
 Qed.
 Print Assumptions C19_regenerated_f1_score.
+
+(* the regenerated calculate_hypervolume_discrepancy_for_model: a value is returned only when the front's hypervolume exceeds the
+   predicted subset's by more than 1e-4, and it is exactly that difference (before the logarithm), both volumes being taken on
+   the TRUE values in cone coordinates against the columnwise minimum *)
+Theorem C19_regenerated_hypervolume_discrepancy : forall hvf W f tp pp d,
+  Gen_extra2.gen_hv_discrepancy hvf W f tp pp = Some d ->
+  let fW := map (fun r => matvec W r) f in
+  let ref := Gen_extra2.gen_hv_reference fW in
+  d = hvf ref (map (fun i => nth i fW []) tp) - hvf ref (map (fun i => nth i fW []) pp) /\ (1 # 10000) < d.
+Proof.
+  intros hvf W f tp pp d H. unfold Gen_extra2.gen_hv_discrepancy in H. cbv zeta in H.
+  destruct (Qle_bool _ _) eqn:E in H; [discriminate|]. injection H as H. cbv zeta. split; [symmetry; exact H|].
+  subst d. apply Qnot_le_lt. intros L. apply Qle_bool_iff in L. congruence.
+Qed.
+Print Assumptions C19_regenerated_hypervolume_discrepancy.
